@@ -15,7 +15,7 @@ import time
 from .. import core, gen, obs
 
 NEED_CLI = True
-RKINDS = ["passing", "failing", "skipping", "conditional", "broken", "empty", "comment", "evalerr"]
+RKINDS = ["passing", "failing", "skipping", "conditional", "broken", "empty", "comment", "evalerr", "nonutf8"]
 DKINDS = ["compliant", "noncompliant", "irrelevant", "malformed", "emptyfile", "nonmap"]
 # every candidate is also rejected by an independent YAML parser (PyYAML) - checked at import time
 MALFORMED = ['{"a": [1, 2', "a: [1, 2\nb: }\n", "key: : :\n  - x: [\n", '{"a" 1}', "a: 'unterminated\n", "- a\nb: 1\n", "a:\n\t- 1\n  b: [\n"]
@@ -57,6 +57,8 @@ def instance(rng):
         "empty": "",
         "comment": "# nothing here\n",
         "evalerr": "rule e%%d {\n    %s empty\n}\n" % ka,
+        # a rules file that cannot be read as text (bytes that are not UTF-8; written with surrogateescape)
+        "nonutf8": "rule u%d {\n    b == \"x\"\n}\n# \udcff\udcfe\n",
     }
     data = {
         "compliant": ser(comp), "noncompliant": ser(nonc), "irrelevant": ser({"b": "x", "l": [1, 2], "other": True}),
@@ -94,13 +96,16 @@ def classify(rk, dk, pair):
     """expected exit class for validate: 0 | 19 | 5 | 'error' | 'nonzero'"""
     if any(d in ("malformed", "emptyfile") for d in dk):
         return "error"
-    sts = [pair[(i, j)] for i, r in enumerate(rk) if r not in ("broken", "empty", "comment") for j in range(len(dk))]
+    sts = [pair[(i, j)] for i, r in enumerate(rk) if r not in ("broken", "empty", "comment", "nonutf8") for j in range(len(dk))]
     if "crash" in sts:
         return None
     parse_err = "broken" in rk
     fail = "FAIL" in sts
     if "error" in sts:
         return "error"
+    if "nonutf8" in rk:
+        # an unreadable rules file: never a successful exit; next to failing pairs the failure status may win
+        return "nonzero" if (fail or parse_err) else "error"
     if not parse_err:
         return 19 if fail else 0
     return "nonzero" if fail else 5
@@ -131,6 +136,8 @@ def argv_for(mode, rpaths, dpaths, rtexts, dtexts, sdir):
         return base + rargs + dargs + ["-o", "yaml", "-S", "none"], None
     if mode.startswith("s-"):
         return base + rargs + dargs + ["--structured", "-S", "none", "-o", mode[2:]], None
+    if mode in ("payload", "payload-s") and any("\udcff" in t for t in rtexts):
+        return None           # a payload is JSON text: bytes that are not UTF-8 cannot be carried in it
     if mode == "payload":
         return base + ["--payload"], json.dumps({"rules": rtexts, "data": dtexts})
     if mode == "payload-s":
@@ -159,7 +166,7 @@ def write_scenario(sdir, rtexts, dtexts, dexts):
     rp, dp = [], []
     for i, t in enumerate(rtexts):
         p = os.path.join(sdir, "rules", "r%d.guard" % i)
-        open(p, "w").write(t)
+        open(p, "w", errors="surrogateescape").write(t)
         rp.append(p)
     for i, t in enumerate(dtexts):
         p = os.path.join(sdir, "data", "d%d%s" % (i, dexts[i]))
@@ -169,7 +176,7 @@ def write_scenario(sdir, rtexts, dtexts, dexts):
     os.makedirs(os.path.join(sdir, "rulesrest"))
     os.makedirs(os.path.join(sdir, "datarest"))
     for i, t in enumerate(rtexts[1:], 1):
-        open(os.path.join(sdir, "rulesrest", "r%d.guard" % i), "w").write(t)
+        open(os.path.join(sdir, "rulesrest", "r%d.guard" % i), "w", errors="surrogateescape").write(t)
     for i, t in enumerate(dtexts[1:], 1):
         open(os.path.join(sdir, "datarest", "d%d%s" % (i, dexts[i])), "w").write(t)
     return rp, dp
@@ -203,7 +210,7 @@ def shard(ctx):
             dexts = [data[k][1] for k in dk]
             pair = {}
             for i, k in enumerate(rk):
-                if k in ("broken", "empty", "comment"):
+                if k in ("broken", "empty", "comment", "nonutf8"):
                     continue
                 for j, d in enumerate(dk):
                     if d in ("malformed", "emptyfile"):
